@@ -50,12 +50,48 @@ Definition err_class (s : status) : Z :=
   | Failed (BadHeader ErrInvalidEncoding) => 4
   end.
 
+(* direct observation of tcp/coder.DecodeHeader on one prefix: kind 0 ErrShortRead, 1 ok, 3 ErrInvalidTokenLen,
+   4 ErrInvalidEncoding, 9 other; for kind 1: h.Length, h.MessageLength, h.Code, len(h.Token) *)
+Inductive hobs := HO (kind hlen mlen code tkl : Z).
+
+Definition hobs_of (r : hres) : hobs :=
+  match r with
+  | HShort => HO 0 0 0 0 0
+  | HErr ErrInvalidTokenLen => HO 3 0 0 0 0
+  | HErr ErrInvalidEncoding => HO 4 0 0 0 0
+  | HOk hlen mlen code tkl => HO 1 hlen mlen code tkl
+  end.
+
+Definition hobs_eqb (a b : hobs) : bool :=
+  match a, b with HO k1 h1 m1 c1 t1, HO k2 h2 m2 c2 t2 =>
+    (k1 =? k2) && (h1 =? h2) && (m1 =? m2) && (c1 =? c2) && (t1 =? t2) end.
+
+(* results of the model on all prefixes of bs of length n, n+1, ..., in order *)
+Fixpoint hdr_prefixes (fuel : nat) (n : nat) (bs : list Z) : list hobs :=
+  match fuel with
+  | O => []
+  | S f => hobs_of (decode_header (firstn n bs)) :: hdr_prefixes f (S n) bs
+  end.
+
+(* once DecodeHeader has decided (anything but ErrShortRead) the answer must not change on longer prefixes *)
+Fixpoint hdr_stable (prev : option hobs) (l : list hobs) : bool :=
+  match l with
+  | [] => true
+  | x :: r =>
+    match prev with
+    | Some p => hobs_eqb p x && hdr_stable prev r
+    | None => match x with HO 0 _ _ _ _ => hdr_stable None r | _ => hdr_stable (Some x) r end
+    end
+  end.
+
 (* chunk sizes are run-length encoded in case files: (size, repetitions) *)
 Definition unrle (l : list (Z * Z)) : list Z := flat_map (fun p => repeat (fst p) (Z.to_nat (snd p))) l.
 
 Inductive case :=
 | Stream (cache max : Z) (items : list citem) (slen scs : Z) (rchunks : list (Z * Z))
-         (o_acc o_hand : list obs) (o_sig : list Z) (o_err o_reads o_bytes o_badreq : Z).
+         (o_acc o_hand : list obs) (o_sig : list Z) (o_err o_reads o_bytes o_badreq : Z)
+(* DecodeHeader called directly on every prefix of bs (lengths 0 .. length bs) *)
+| Hdr (bs : list Z) (o : list hobs).
 
 Definition obs_of_item (m : mitem) : obs :=
   Ob (m_code m) (blen (m_tok m)) (fsum (m_tok m)) (blen (m_pay m)) (fsum (m_pay m)).
@@ -92,6 +128,7 @@ Definition agrees (c : case) : bool :=
     obs_list_eqb o_hand (map obs_of_item (filter (fun m => negb (is_signal (m_code m))) (out st1))) &&
     zlist_eqb o_sig (map m_code (filter (fun m => is_signal (m_code m)) (out st1))) &&
     (o_err =? err_class (st st1)) && (o_reads =? reads) && (o_bytes =? bytes)
+  | Hdr bs o => list_eqb hobs_eqb o (hdr_prefixes (S (length bs)) 0 bs)
   end.
 
 (* the property (Spec) on the OBSERVED output *)
@@ -99,6 +136,7 @@ Definition pclass (c : case) : N :=
   match c with
   | Stream cache max items slen scs rchunks o_acc o_hand o_sig o_err o_reads o_bytes o_badreq =>
     c07_class max (map to_sitem items) (unrle rchunks) o_hand o_sig o_err o_reads
+  | Hdr bs o => if hdr_stable None o then 0%N else 7%N
   end.
 
 Definition mismatches (cs : list case) : list N := bad_indices (fun c => negb (agrees c)) cs.
